@@ -382,6 +382,23 @@ func (mc *Machine) genQuery(t *rapid.T) []qOp {
 					S: rapid.SampledFrom([]string{"", "a", "s", "s1", "e", "b", "k", "p"}).Draw(t, "q-s"), K: int64(rapid.IntRange(0, 3).Draw(t, "q-sk"))}
 			} else {
 				o.Pred = qPred{Op: rapid.SampledFrom([]string{"<", ">=", "==", "even"}).Draw(t, "q-op"), K: int64(rapid.IntRange(-30, 60).Draw(t, "q-k"))}
+				// half of the thresholds sit on (or one beside) a value that a live row holds in that column:
+				// a filter that loses low bits of a 64-bit value, or compares in the wrong width, decides such a row wrongly
+				if ci >= 0 && !mc.Sch.Cols[ci].Kind.Float() && mc.Sch.Cols[ci].Kind.Numeric() && mc.Sch.Cols[ci].Kind != KBool && rapid.Bool().Draw(t, "q-k-near-data") {
+					var held []int64
+					for _, off := range mc.M.Live() {
+						if c := mc.M.Rows[off][ci]; c.Has {
+							held = append(held, toInt64(mc.Sch.Cols[ci].Kind, c.V.B))
+						}
+						if len(held) >= 64 {
+							break
+						}
+					}
+					if len(held) > 0 {
+						o.Pred.K = held[rapid.IntRange(0, len(held)-1).Draw(t, "q-k-row")] + int64(rapid.IntRange(-1, 1).Draw(t, "q-k-delta"))
+						mc.flag("threshold-beside-stored-value")
+					}
+				}
 			}
 			if o.Kind == qWithUint && ci >= 0 && mc.Sch.Cols[ci].Kind.Float() {
 				o.Kind = qWithInt // float -> uint64 conversion of negative values is implementation-specific
@@ -537,6 +554,9 @@ func (mc *Machine) checkAggregates(t *rapid.T, sel map[uint32]bool, ci int, got 
 		mc.fail(t, "%s: Min/Max of %s = %s / %s, computed directly over the %d selected rows holding a value: %s / %s", what, name,
 			Value{B: got.Min}.render(k), Value{B: got.Max}.render(k), n, Value{B: mn}.render(k), Value{B: mx}.render(k))
 	}
+	if mc.WideInts && !k.Float() {
+		fits = false // a wrapped 64-bit sum cannot be told from a fitting one
+	}
 	if !fits {
 		AddCounter("C04", "aggregates_sum_skipped_overflow", 1)
 		return partial
@@ -588,7 +608,21 @@ func TestC04(t *testing.T) {
 		follower := newCollection(sch, column.Options{})
 		defer follower.Close()
 		fed := 0
-		cfg := TxnCfg{Prop: "C04", MaxSteps: 8, Deletes: true, Inserts: true, Merges: true, Direct: true, SafeValue: c04SafeValue,
+		// one layout in three stores full-range integers (edge-biased, all 64 bits in use); Sum and Avg are
+		// then not judged for the integer columns (overflow), the filters, Min and Max are
+		wide := rapid.IntRange(0, 2).Draw(t, "wide-integers") == 0
+		mc.WideInts = wide
+		safe := c04SafeValue
+		if wide {
+			safe = func(t *rapid.T, cs ColSpec, label string) Value {
+				if cs.Kind.Numeric() && !cs.Kind.Float() && cs.Kind != KBool {
+					return genValue(t, cs, label)
+				}
+				return c04SafeValue(t, cs, label)
+			}
+			mc.flag("wide-integers")
+		}
+		cfg := TxnCfg{Prop: "C04", MaxSteps: 8, Deletes: true, Inserts: true, Merges: true, Direct: true, SafeValue: safe,
 			NoStoreOnDel: KFActive("f11-store-and-delete-same-txn"), NoOpAfterLenMerge: KFActive("f15-difflen-merge-reorder")}
 		f13 := KFActive("f13-aggregates-ignore-presence")
 		f14 := KFActive("f14-withunion-single-widens")
